@@ -256,6 +256,7 @@ func construct(input any, source *url.URL) pub.Tangible {
 type session struct {
 	Chain    Chain `json:"chain"`
 	Requests []int `json:"requests"`
+	Start    int   `json:"start"` // start offset of the first request
 }
 
 var theWorld = world.New()
@@ -263,6 +264,12 @@ var theWorld = world.New()
 // runSession drives the real collection with the given request sizes, following the
 // continuation. Returns "" or (key, message).
 func runSession(c Chain, requests []int) (key, msg string, delivered int, ended bool) {
+	return runSessionFrom(c, requests, 0)
+}
+
+// runSessionFrom: the first request uses the given start offset. An offset applies to the
+// page it is given to: it skips min(offset, items on that page) items of the root page.
+func runSessionFrom(c Chain, requests []int, firstStart int) (key, msg string, delivered int, ended bool) {
 	theWorld = world.New()
 	theWorld.Install()
 	jtp.VerifPurgeCache()
@@ -274,8 +281,11 @@ func runSession(c Chain, requests []int) (key, msg string, delivered int, ended 
 		return "construct", "NewCollectionFromObject: " + err.Error(), 0, true
 	}
 	var cont pub.Container = coll
-	start := uint(0)
-	d := 0
+	start := uint(firstStart)
+	d := firstStart
+	if n := len(truth[0].Items); d > n {
+		d = n
+	}
 	failed := false
 	cls := "acyclic"
 	if c.cyclic() {
@@ -408,7 +418,7 @@ func contains(v []int, x int) bool {
 }
 
 func report(r *ev.Report, c Chain, reqs []int, key, msg string) {
-	r.Violation(key, session{c, reqs})
+	r.Violation(key, session{c, reqs, 0})
 	_ = msg
 }
 
@@ -459,6 +469,16 @@ func explore(r *ev.Report, c Chain, curFile string) {
 			}
 		}
 	}
+	// start offsets on the first request (the Container protocol's second argument)
+	for _, st := range []int{1, 2, 3, 5} {
+		for _, n := range sizes {
+			reqs := []int{n, 7, 7}
+			if key, _, _, _ := runSessionFrom(c, reqs, st); key != "" {
+				r.Violation("offset:"+key, session{c, reqs, st})
+			}
+			r.Transitions += 3
+		}
+	}
 	r.Eval(1)
 }
 
@@ -466,12 +486,12 @@ func main() {
 	r := ev.New("C10", "model_checking",
 		"page chains: kind {Collection, OrderedCollection} x root items {absent,0,1,2} x page-size vectors (<=3 pages of size 0..2 quick, <=4 pages of size 0..3 thorough) x placement {embedded, remote, alternating} x "+
 			"tail {absent, null, self-cycle, cycle to each earlier page, 404, wrong type, non-JSON} (+ single-value item lists); per chain an explicit-state search over request sequences with sizes {0,1,2,3,4,7} "+
-			"(state = items delivered so far), each transition replayed on a fresh Collection through the continuation protocol, plus all unmerged request pairs; distinct_nontrivial = chains with at least two pages or a cycle")
+			"(state = items delivered so far), each transition replayed on a fresh Collection through the continuation protocol, plus all unmerged request pairs and first requests with start offsets 1,2,3,5; distinct_nontrivial = chains with at least two pages or a cycle")
 	debug.SetMaxStack(64 << 20)
 	if *ev.FlagReplay != "" {
 		var s session
 		ev.LoadReplay(*ev.FlagReplay, &s)
-		key, msg, d, _ := runSession(s.Chain, s.Requests)
+		key, msg, d, _ := runSessionFrom(s.Chain, s.Requests, s.Start)
 		fmt.Printf("replay: key=%q msg=%q delivered=%d\n", key, msg, d)
 		if key != "" {
 			r.Violation(key, s)
@@ -491,7 +511,7 @@ func main() {
 				r.Distinct(fmt.Sprint(k))
 			}
 			if k%1009 == 0 {
-				r.Sample(session{all[k], []int{2, 0, 7}})
+				r.Sample(session{all[k], []int{2, 0, 7}, 0})
 			}
 		}
 		r.Traces = r.Transitions
